@@ -64,6 +64,9 @@ func main() {
 	if *replay != "" {
 		os.Exit(doReplay(*replay, *repo))
 	}
+	if *prop == "all" {
+		os.Exit(runAll(*repo))
+	}
 	pd := props[*prop]
 	if pd == nil {
 		fmt.Fprintf(os.Stderr, "unknown property %q\n", *prop)
@@ -304,4 +307,46 @@ func doReplay(path, repo string) int {
 	}
 	fmt.Printf("obligation %s | %s no longer exists on this tree\n", rp.Rule, rp.Construct)
 	return 0
+}
+
+// runAll evaluates every registered property on one load (no evidence, no
+// self-test); used to screen seeded changes. Output: one line per violated or
+// undecided obligation.
+func runAll(repo string) int {
+	c, err := Load(repo, nil, "")
+	if err != nil {
+		fmt.Fprintf(os.Stderr, "portlint: tool error: %v\n", err)
+		return 2
+	}
+	known, _ := loadKnown(filepath.Join(verifDir, "known_findings.json"))
+	kn := map[string]bool{}
+	for _, k := range known {
+		if k.Status == "known" {
+			kn[k.Property+"|"+k.Rule+"|"+k.Construct] = true
+		}
+	}
+	var ids []string
+	for id := range props {
+		ids = append(ids, id)
+	}
+	sort.Strings(ids)
+	rc := 0
+	for _, id := range ids {
+		r := NewReport(id)
+		runRules(props[id], c, r)
+		r.applyFloors()
+		for _, o := range dedupe(r.Obligs) {
+			if o.Status == Violated && !kn[id+"|"+o.Key()] {
+				fmt.Printf("ALL violated %s %s | %s | %s\n", id, o.Rule, o.Construct, o.Detail)
+				rc = 1
+			}
+			if o.Status == Undecided {
+				fmt.Printf("ALL undecided %s %s | %s | %s\n", id, o.Rule, o.Construct, o.Detail)
+				if rc == 0 {
+					rc = 2
+				}
+			}
+		}
+	}
+	return rc
 }
